@@ -18,7 +18,7 @@ def run(prop, tier, seed):
     M = "MC_Refs.tla"
     tol = [e["tag"] for e in core.KnownFindings(prop).open]
     with core.Scratch() as scratch:
-        props = [{"module": M, "cfg": "%s_p.cfg" % prop, "extra_defs": {"%s_p.cfg" % prop: cfg("KAll", 2 if quick else 3, False)}}]
+        props = [{"module": M, "cfg": "%s_p.cfg" % prop, "extra_defs": {"%s_p.cfg" % prop: cfg("KProp" if quick else "KAll", 2 if quick else 3, False)}}]
         gens = [{"module": M, "cfg": "%s_g.cfg" % prop, "workers": 8, "extra_defs": {"%s_g.cfg" % prop: cfg("KNoK" if quick else "KAll", 1 if quick else 2, True)}},
                 {"module": M, "cfg": "%s_s.cfg" % prop, "workers": 8, "simulate": 500 if quick else 20000, "depth": 10, "seed": seed,
                  "extra_defs": {"%s_s.cfg" % prop: cfg("KAll", 6, True)}},
@@ -66,7 +66,7 @@ def run(prop, tier, seed):
             n = "C02_td.cfg"
             g = [{"module": "MC_TimeDyn.tla", "cfg": n, "workers": 8, "simulate": 300 if quick else 5000, "depth": 12, "seed": seed,
                   "extra_defs": {n: timedyn.cfg(8, 2, True)}}]
-            stages.append(pipeline.replay_stage(g, "timedyn", {"gens": {"1": "A", "2": "B", "3": "A", "4": "K"}, "insts": {"1": 1, "2": 1, "3": 2, "4": 2},
+            stages.append(pipeline.replay_stage(g, "timedyn", {"gens": {"1": "A", "2": "B", "3": "A", "4": "K", "5": "C"}, "insts": {"1": 1, "2": 1, "3": 2, "4": 2, "5": 0},
                                                                "nontrivial": "rejected"}, scratch, 900, name="replay_dynamic_generators"))
         th.join()
     if prop == "C08":
